@@ -79,9 +79,6 @@ def setOmits (o : Op R) (args : PMap) : Op R :=
 def clearOmits (p : Parsed R) : Parsed R :=
   { p with boolean := p.boolean.filter (fun k => k != S "omit_fwd" && k != S "omit_inv") }
 
-/-- out of fuel: cannot happen with `fuel ≥ 102 - level` (`instantiate_fuel_sufficient`) -/
-def outOfFuel : Err := .general
-
 /-- `List::mapM` for `Except`, spelled out -/
 def mapExcept {β γ : Type} (f : β → Except Err γ) : List β → Except Err (List γ)
   | [] => .ok []
@@ -92,6 +89,20 @@ def mapExcept {β γ : Type} (f : β → Except Err γ) : List β → Except Err
       match mapExcept f bs with
       | .error e => .error e
       | .ok cs => .ok (c :: cs)
+
+/-- the same for functions that may run out of fuel (`none`): in order, stopping at the first
+error -/
+def mapFuel {β γ : Type} (f : β → Option (Except Err γ)) : List β → Option (Except Err (List γ))
+  | [] => some (.ok [])
+  | b :: bs =>
+    match f b with
+    | none => none
+    | some (.error e) => some (.error e)
+    | some (.ok c) =>
+      match mapFuel f bs with
+      | none => none
+      | some (.error e) => some (.error e)
+      | some (.ok cs) => some (.ok (c :: cs))
 
 /-- `pipeline::new`, given the instantiation of the steps -/
 def pipelineFinish (env : Env R) (p : RawParameters) (steps : Except Err (List (Op R))) : Except Err (Op R) :=
@@ -104,37 +115,39 @@ def pipelineFinish (env : Env R) (p : RawParameters) (steps : Except Err (List (
       .ok (.mk { tag := pipelineTag, definition := p.definition, invertible := true,
                  params := clearOmits params } steps)
 
-/-- `Op::op` (the fuel stands for the recursion counter: every recursive call goes through
-`RawParameters::next`, which increases `level`, and `level > 100` is refused) -/
-def instantiate (env : Env R) : Nat → RawParameters → Except Err (Op R)
-  | 0, _ => .error outOfFuel
+/-- the leaf constructors: user-registered first (for names without a colon), then built-in -/
+def leafCtor (env : Env R) (p : RawParameters) (c : Ctor R) : Except Err (Op R) :=
+  match c p with
+  | .ok n => handleOpInversion (.mk n [])
+  | .error e => .error e
+
+/-- `Op::op`.  The fuel stands for the recursion counter: every recursive call goes through
+`RawParameters::next`, which increases `level`, and `level > 100` is refused; `none` = out of
+fuel, which `instantiate_fuel_sufficient` shows impossible for `fuel + level ≥ 102`. -/
+def instantiate (env : Env R) : Nat → RawParameters → Option (Except Err (Op R))
+  | 0, _ => none
   | fuel + 1, p =>
-    if p.nestingTooDeep then .error .recursion else
+    if p.nestingTooDeep then some (.error .recursion) else
     let name := operatorName p.definition
     -- `pipeline::new`
-    let pipelineNew : Unit → Except Err (Op R) := fun _ =>
-      pipelineFinish env p
-        (mapExcept (fun s => instantiate env fuel (p.next s)) (splitIntoSteps p.definition))
+    let pipelineNew : Unit → Option (Except Err (Op R)) := fun _ =>
+      (mapFuel (fun s => instantiate env fuel (p.next s)) (splitIntoSteps p.definition)).map
+        (pipelineFinish env p)
     if isPipeline p.definition then pipelineNew ()
     else
-      let viaBuiltin : Unit → Except Err (Op R) := fun _ =>
+      let viaBuiltin : Unit → Option (Except Err (Op R)) := fun _ =>
         if name == pipelineTag then
-          match pipelineNew () with
-          | .ok o => handleOpInversion o
-          | .error e => .error e
+          (pipelineNew ()).map fun r =>
+            match r with
+            | .ok o => handleOpInversion o
+            | .error e => .error e
         else
         match env.builtin name with
-        | some c =>
-          match c p with
-          | .ok n => handleOpInversion (.mk n [])
-          | .error e => .error e
-        | none => .error .notFound
+        | some c => some (leafCtor env p c)
+        | none => some (.error .notFound)
       if !isResourceName name then
         match env.user name with
-        | some c =>
-          match c p with
-          | .ok n => handleOpInversion (.mk n [])
-          | .error e => .error e
+        | some c => some (leafCtor env p c)
         | none => viaBuiltin ()
       else
         match env.resource name with
@@ -142,17 +155,20 @@ def instantiate (env : Env R) : Nat → RawParameters → Except Err (Op R)
           let args := splitIntoParameters p.definition
           let inverted := argSet args (S "inv")
           let nextParam := { p.next p.definition with definition := body }
-          match instantiate env fuel nextParam with
-          | .ok o =>
-            match handleInversion o inverted with
-            | .ok o => .ok (setOmits o args)
+          (instantiate env fuel nextParam).map fun r =>
+            match r with
+            | .ok o =>
+              match handleInversion o inverted with
+              | .ok o => .ok (setOmits o args)
+              | .error e => .error e
             | .error e => .error e
-          | .error e => .error e
         | none => viaBuiltin ()
 
 /-- `Op::new(definition, ctx)` with the full allowance of the recursion counter -/
 def Op.new (env : Env R) (globals : PMap) (definition : Str) : Except Err (Op R) :=
-  instantiate env (RawParameters.limit + 2) (RawParameters.new definition globals)
+  match instantiate env (RawParameters.limit + 2) (RawParameters.new definition globals) with
+  | some r => r
+  | none => .error .general   -- unreachable (`instantiate_fuel_sufficient`)
 
 end inst
 
@@ -245,7 +261,8 @@ variable {R : Type} [Scalar R]
 theorem instantiate_pipeline (env : Env R) (fuel : Nat) (p : RawParameters)
     (hdeep : p.nestingTooDeep = false) (hpipe : isPipeline p.definition = true) :
     instantiate env (fuel + 1) p =
-      pipelineFinish env p (mapExcept (fun s => instantiate env fuel (p.next s)) (splitIntoSteps p.definition)) := by
+      (mapFuel (fun s => instantiate env fuel (p.next s)) (splitIntoSteps p.definition)).map
+        (pipelineFinish env p) := by
   rw [instantiate]
   simp only [hdeep, hpipe, Bool.false_eq_true, if_false, if_true]
 
